@@ -147,11 +147,11 @@ def ir_search_shape(fi: FuncInfo, partial_bound_ok: Optional[bool] = None):
         if m_:
             lab = m_["l"]
             body_calls = [norm(c) for st in ifs[0].body for c in ast.walk(st) if isinstance(c, ast.Call)]
-            perm_names = {b_["x"] for st in ifs[0].body for n_, b_ in pfind("$t.append($x)", st, {"t": ties})}
+            perm_names = {b_["x"] for st in ifs[0].body for n_, b_ in pfind("$t.append($$x)", st, {"t": ties})}
             cleared = any(c == f"{ties}.clear()" for c in body_calls)
             orelse = ifs[0].orelse
             eq_ok = bool(orelse) and isinstance(orelse[0], ast.If) and pmatch("$l == $b['label']", orelse[0].test, {"l": lab, "b": best}) is not None \
-                and any(pfind("$t.append($x)", st, {"t": ties}) for st in orelse[0].body)
+                and {b_["x"] for st in orelse[0].body for n_, b_ in pfind("$t.append($$x)", st, {"t": ties})} == perm_names
             ok_leaf = cleared and len(perm_names) == 1 and eq_ok
     obs.append(("leaf", ok_leaf, ifs[0].test if ifs else lf.test, "a strictly smaller label replaces the best and resets the tie list; an equal label is appended (all minimal leaves are kept)", lf))
     rets = [n for n in lf.body if isinstance(n, ast.Return)]
@@ -179,52 +179,74 @@ def label_builder_shape(fi: FuncInfo, node_keys: str, edge_keys: str, directed: 
     segs = [(n, b) for n, b in pfind("$ns = $$e", fn, into_nested=False) if isinstance(n, ast.Assign) and pmatch(pat, n.value) is not None]
     obs.append(("node-seg", len(segs) == 1, segs[0][0] if segs else f"'|'.join(... for v in {perm})", "the label lists the selected node attributes of every position, in position order", fn))
     ns = segs[0][1]["ns"] if segs else None
-    # pair loops
-    loops = [l for l in walk_local(fn) if isinstance(l, ast.For) and isinstance(l.iter, ast.Call) and call_name(l.iter) == "range"]
-    outer = [l for l in loops if not enclosing_loops(pm, l, fn)]
+    # pair loops: two nested loops over the positions of `perm`, each pair appending exactly one bit
+    def loop_info(l, body_scope):
+        """(index variable or None, node expression text, 'full' | ('upper', index var of the outer loop) | None)"""
+        it = l.iter
+        if isinstance(it, ast.Call) and call_name(it) == "range" and isinstance(l.target, ast.Name):
+            idx = l.target.id
+            vs = [b_["v"] for n2, b_ in pfind(f"$v = {perm}[{idx}]", body_scope)]
+            node = vs[0] if len(vs) == 1 else f"{perm}[{idx}]"
+            m1 = pmatch("range($$n)", it)
+            if m1 is not None and norm(origin(defs, it.args[0])) == f"len({perm})":
+                return idx, node, "full"
+            m2 = pmatch("range($i + 1, $$n)", it)
+            if m2 is not None and norm(origin(defs, it.args[1])) == f"len({perm})":
+                return idx, node, ("upper", m2["i"])
+            return idx, node, None
+        if pmatch(f"enumerate({perm})", it) is not None and isinstance(l.target, ast.Tuple) and len(l.target.elts) == 2 and all(isinstance(e, ast.Name) for e in l.target.elts):
+            return l.target.elts[0].id, l.target.elts[1].id, "full"
+        if norm(it) == perm and isinstance(l.target, ast.Name):
+            return None, l.target.id, "full"
+        return None, None, None
+
+    loops = []
     ok_pairs = False
     bits_name = None
-    if len(outer) == 1:
-        o = outer[0]
-        i = norm(o.target)
-        inner = [l for l in loops if enclosing_loops(pm, l, fn)[:1] == [o]]
-        nm = pmatch("range($n)", o.iter)
-        if len(inner) == 1 and nm:
-            j = norm(inner[0].target)
-            n_ = nm["n"]
-            n_src = norm(origin(defs, ast.Name(id=n_, ctx=ast.Load())))
+    apps = [c for c in walk_local(fn) if isinstance(c, ast.Call) and isinstance(c.func, ast.Attribute) and c.func.attr == "append" and len(c.args) == 1
+            and isinstance(c.func.value, ast.Name) and len(enclosing_loops(pm, c, fn)) == 2]
+    conts = {c.func.value.id for c in apps}
+    if len(conts) == 1 and apps:
+        inner_l, outer_l = enclosing_loops(pm, apps[0], fn)
+        same = all(enclosing_loops(pm, c, fn) == [inner_l, outer_l] for c in apps)
+        loops = [outer_l, inner_l]
+        i, vi, ro = loop_info(outer_l, ast.Module(body=[s_ for s_ in outer_l.body if s_ is not inner_l], type_ignores=[]))
+        j, vj, ri = loop_info(inner_l, inner_l)
+        b1p = "'1:' + ':'.join((str($x) for $x in $$fr))"
+        b0p = f"'0:' + ':'.join(('' for $u in self.{edge_keys}))"
+        ones = [c for c in apps if pmatch(b1p, origin(defs, c.args[0])) is not None]
+        zeros = [c for c in apps if pmatch(b0p, origin(defs, c.args[0])) is not None]
+        if same and vi and vj and len(ones) == 1 and len(zeros) == 1 and len(apps) == 2:
+            bits_name = conts.pop()
+            skip_ok = False
+            want_g = set()
             if directed:
-                skip = [s_ for s_ in inner[0].body if isinstance(s_, ast.If) and any(isinstance(x, ast.Continue) for x in s_.body)]
-                ok_pairs = pmatch("range($n)", inner[0].iter, {"n": n_}) is not None and len(skip) == 1 and \
-                    (pmatch("$i == $j", skip[0].test, {"i": i, "j": j}) is not None or pmatch("$j == $i", skip[0].test, {"i": i, "j": j}) is not None)
+                if ro == "full" and ri == "full":
+                    skip_ok = True
+                    want_g = {(f"{i} != {j}", True), (f"{j} != {i}", True)} if i and j else {(f"{vi} != {vj}", True), (f"{vj} != {vi}", True)}
             else:
-                ok_pairs = pmatch("range($i + 1, $n)", inner[0].iter, {"i": i, "n": n_}) is not None
-            ok_pairs = ok_pairs and n_src == f"len({perm})"
-            other_exits = [x for x in walk_local(o) if isinstance(x, (ast.Break, ast.Return))]
-            ok_pairs = ok_pairs and not other_exits
-            # vi = perm[i], vj = perm[j]
-            vi = [b["v"] for n2, b in pfind(f"$v = {perm}[$k]", o, {"k": i})]
-            vj = [b["v"] for n2, b in pfind(f"$v = {perm}[$k]", inner[0], {"k": j})]
-            if vi and vj:
-                ones = [(n2, b) for n2, b in pfind("$eb.append('1:' + ':'.join((str($x) for $x in $fr)))", inner[0])]
-                zeros = [(n2, b) for n2, b in pfind(f"$eb.append('0:' + ':'.join(('' for $u in self.{edge_keys})))", inner[0])]
-                ok_bits = False
-                if len(ones) == 1 and len(zeros) == 1 and ones[0][1]["eb"] == zeros[0][1]["eb"]:
-                    bits_name = ones[0][1]["eb"]
-                    fr = ones[0][1]["fr"]
-                    fr_src = [n2 for n2, b in pfind(f"$fr = tuple((self._freeze($at.get($a, '')) for $a in self.{edge_keys}))", inner[0], {"fr": fr})]
-                    at_ok = False
-                    if fr_src:
-                        at = pmatch(f"$fr = tuple((self._freeze($at.get($a, '')) for $a in self.{edge_keys}))", fr_src[0])["at"]
-                        at_ok = bool(pfind(f"$at = {G}[$vi][$vj]", inner[0], {"at": at, "vi": vi[0], "vj": vj[0]}))
-                    g1 = guards_of(pm, ones[0][0], inner[0])
-                    g0 = guards_of(pm, zeros[0][0], inner[0])
-                    has = lambda gs, sense: any(pmatch(f"{G}.has_edge($a, $b)", t, {"a": vi[0], "b": vj[0]}) is not None and s_ == sense for t, s_ in gs)
-                    ok_bits = bool(fr_src) and at_ok and has(g1, True) and has(g0, False)
-                obs.append(("edge-bit", ok_bits, ones[0][0] if ones else "edge_bits.append('1:' ...)",
-                            "a pair of positions gets '1:' + the selected attributes of exactly the edge between them, or '0:' if there is none", inner[0]))
-            else:
-                obs.append(("edge-bit", None, f"{perm}[i] / {perm}[j]", "position-to-node translation not recognised", o))
+                skip_ok = ro == "full" and isinstance(ri, tuple) and ri[1] == i
+            g1 = {(norm(t), s_) for t, s_ in guards_of(pm, ones[0], outer_l)}
+            g0 = {(norm(t), s_) for t, s_ in guards_of(pm, zeros[0], outer_l)}
+            he = f"{G}.has_edge({vi}, {vj})"
+            rest1 = {g for g in g1 if g != (he, True)}
+            rest0 = {g for g in g0 if g != (he, False)}
+            # apart from the edge test the two bits are emitted under the same condition: only "positions differ" (ordered pairs)
+            guards_ok = (he, True) in g1 and (he, False) in g0 and rest1 == rest0 and \
+                ((directed and len(rest1) == 1 and rest1 <= want_g) or (not directed and not rest1))
+            other_exits = [x for x in walk_local(outer_l) if isinstance(x, (ast.Break, ast.Return))]
+            ok_pairs = skip_ok and guards_ok and not other_exits
+            # the '1:' bit carries the selected attributes of exactly the edge (vi, vj)
+            fr = origin(defs, origin(defs, ones[0].args[0]).right.args[0].generators[0].iter)
+            at_ok = False
+            mfr = pmatch(f"tuple((self._freeze($$at.get($a, '')) for $a in self.{edge_keys}))", fr)
+            if mfr is not None:
+                at = origin(defs, fr.args[0].elt.args[0].func.value)
+                at_ok = norm(at) == f"{G}[{vi}][{vj}]"
+            obs.append(("edge-bit", at_ok and guards_ok, ones[0],
+                        "a pair of positions gets '1:' + the selected attributes of exactly the edge between them, or '0:' if there is none", inner_l))
+        else:
+            obs.append(("edge-bit", None, f"{perm}[i] / {perm}[j]", "pair loops / bit expressions not recognised", outer_l))
     if not loops:
         # functional form: one generator over combinations(perm, 2) / permutations(perm, 2) joined with '|'
         it_pat = f"permutations({perm}, 2)" if directed else f"combinations({perm}, 2)"
